@@ -19,9 +19,11 @@ def families(tier):
     deep = tier == 'thorough'
     out = []
     cfg = dict(bound=4 if deep else 2, cap=50000 if deep else 2500, window=0.25, max_targets=2)
-    for ybus, before, other_q, late, cshape, k in itertools.product('AB', (0, 1, 2), (0, 1), ('none', 'actor', 'handler'), ('ret', 'pause', 'g_aw', 'g_ff'), (0, 1)):
+    for ybus, before, other_q, late, cshape, k in itertools.product('AB', (0, 1, 2), (0, 1), ('none', 'actor', 'handler'), ('ret', 'pause', 'g_aw', 'g_ff', 'g_ff_other', 'g_aw_other'), (0, 1)):
         if before == 0 and other_q == 0 and late == 'none':
             continue
+        if cshape.endswith('_other') and (not other_q or (not deep and (late != 'none' or k))):
+            continue  # (the grandchild goes to the OTHER bus, which the awaited child never visits and which already holds an unrelated event)
         if not deep and k == 1 and cshape in ('g_ff',):
             continue
         other = 'A' if ybus == 'B' else 'B'
@@ -30,10 +32,11 @@ def families(tier):
         if late == 'handler':
             hp.append(('disp', ybus, 'Z', 'ff'))  # enqueued after the child, by the awaiting handler itself
         hp.append(('await', 'C'))
-        hc = {'ret': [('ret', 1)], 'pause': [('pause',)], 'g_aw': [('disp', ybus, 'G', 'await')], 'g_ff': [('disp', ybus, 'G', 'ff')]}[cshape]
+        hc = {'ret': [('ret', 1)], 'pause': [('pause',)], 'g_aw': [('disp', ybus, 'G', 'await')], 'g_ff': [('disp', ybus, 'G', 'ff')],
+              'g_ff_other': [('disp', other, 'G', 'ff')], 'g_aw_other': [('disp', other, 'G', 'await')]}[cshape]
         hs = [dict(bus='A', pat='P', name='hp', prog=hp), dict(bus=ybus, pat='C', name='hc', prog=hc)]
         if cshape.startswith('g_'):
-            hs.append(dict(bus=ybus, pat='G', name='hg', prog=[('pause',)]))
+            hs.append(dict(bus=other if cshape.endswith('_other') else ybus, pat='G', name='hg', prog=[('pause',)]))
         for b in buses:
             hs.append(dict(bus=b, pat='X', name='hx' + b, prog=[('ret', 0)]))
             hs.append(dict(bus=b, pat='Z', name='hz' + b, prog=[('ret', 0)]))
